@@ -112,12 +112,24 @@ let run_cc toks obs =
            else Printf.sprintf "AGREE %s nontrivial" id)
   | _ -> "SKIP"
 
+(* the second half of C09 is a statement about quiescent points after the transport began to stop: the harness marks each
+   point at which it judged the run quiescent ("settled"); the predicate is evaluated on every prefix that ends at one *)
+let quiescent_prefixes_ok k (evs : string list) : bool =
+  let max = Values.z_to_coq (ZZ.of_string (let m = kv "max" k in if m = "" then "1048576" else m)) in
+  let known = Some (Abstract.known_methods (kv "protocols" k)) in
+  let rec go (pre : string list) (rest : string list) =
+    match rest with
+    | [] -> true
+    | "settled" :: r -> c09_close_cancels_all (Abstract.abstract_with known max (List.rev pre)) && go ("settled" :: pre) r
+    | e :: r -> go (e :: pre) r in
+  go [] evs
+
 let run_c09 toks obs =
   match toks with "e2ec" :: _ -> run_e2ec toks obs | "e2en" :: _ -> run_e2en toks obs | _ ->
   with_trace toks obs (fun id k evs tr ->
     if not (c09_only_own tr) then Printf.sprintf "PROPFAIL %s sig=%s a handler's context was cancelled although its caller did not cancel it and the transport was not closing" id
         (if kv "family" k = "" then "foreign-cancel" else "foreign-cancel:" ^ kv "family" k)
-    else if not (c09_close_cancels_all tr) then Printf.sprintf "PROPFAIL %s sig=%s the transport stopped but a handler still running did not have its context cancelled" id
+    else if not (c09_close_cancels_all tr) || not (quiescent_prefixes_ok k evs) then Printf.sprintf "PROPFAIL %s sig=%s the transport stopped but a handler still running did not have its context cancelled" id
         (if kv "family" k = "" then "not-cancelled-on-close" else "not-cancelled-on-close:" ^ kv "family" k)
     else match Abstract.timeouts evs with
       | [] -> Printf.sprintf "AGREE %s %s" id (nt k)
